@@ -63,7 +63,7 @@ func (s *inst) Enabled() []op {
 
 func (s *inst) Key() string {
 	h, n, l, c := fields(s.q)
-	return fmt.Sprintf("%d,%d,%d,%d,%v", h, n, l, c, s.emptied)
+	return fmt.Sprintf("%d,%d,%d,%d,%v %s", h, n, l, c, s.emptied, mc.Fingerprint(s.q))
 }
 
 func (s *inst) Apply(o op, check bool) *mc.Failure {
@@ -410,6 +410,13 @@ func main() {
 			}
 			b := makeBFS(c, &cnt, r.Hooks, depth)
 			res := b.Run(r)
+			if r.Hooks {
+				// every history to a small depth without merging (hidden state no key shows)
+				d := mc.Pick(r, 7, 9)
+				flat := &cfg{MaxLen: d, Roots: []int{-2, -1, 0, 1, 2, 3}}
+				res2 := makeBFS(flat, &cnt, false, d).Run(r)
+				r.Bound("unmerged_configuration", fmt.Sprintf("every history of Add/Push/Pop/PopLast/Clear up to depth %d from 6 initial capacities, no state merging: %d histories", d, res2.States))
+			}
 			r.Bound("max_len", c.MaxLen)
 			r.Bound("roots", "zero value, New, NewSize(0..6)")
 			r.Bound("depth_reached", res.Depth)
